@@ -172,6 +172,22 @@ func namedStruct(idx int64) any {
 		p.Next = &Node{Head: 4, Name: "m"}
 		p.Next.Active = &p.Head
 		return p
+	case 5:
+		type Prof struct {
+			Name string
+			Age  int
+		}
+		p := &Prof{Name: "Ann", Age: 3}
+		return map[string]any{"name": &p.Name, "profile": p, "again": p, "zname": &p.Name}
+	case 6:
+		type Prof struct {
+			Name string
+			Age  int
+		}
+		p := &Prof{Name: "Bo", Age: 4}
+		arr := &[2]int{7, 8}
+		sl := arr[:]
+		return map[string]any{"a_profile": p, "b_name": &p.Name, "c_first": &arr[0], "d_all": &sl}
 	}
 	type Rec struct{}
 	return Rec{}
